@@ -158,6 +158,11 @@ func Minimise(t *testing.T, bind *Binding, c *Case, job *Job, same func([]model.
 			}
 		}
 	}
+	if len(best.Prog.Refuse) != 0 {
+		cand := cloneCase(best)
+		cand.Prog.Refuse = nil
+		try(cand)
+	}
 	for i := 0; i < len(best.Prog.Sources); {
 		cand := cloneCase(best)
 		cand.Prog.Sources = append(cand.Prog.Sources[:i], cand.Prog.Sources[i+1:]...)
